@@ -61,12 +61,13 @@ type C8Stage struct {
 	N    int
 }
 type C8Pipe struct {
-	Kind string // numbers list stage app cross merge
+	Kind string // numbers list stage app cross merge through
 	N    int
 	L    []int    `json:",omitempty"`
 	S    *C8Stage `json:",omitempty"`
 	P    *C8Pipe  `json:",omitempty"`
 	Q    *C8Pipe  `json:",omitempty"` // second operand of + / cross / merge: a pipeline of its own
+	Ctx  int      `json:",omitempty"` // through: the construct the list P passes through (c8CtxNames)
 	ID   int      `json:",omitempty"` // closure of cross / merge
 	F2   *C8Fn2   `json:",omitempty"` // cross: g(a,b)
 	P2   *C8Pr2   `json:",omitempty"` // merge: less(a,b)
@@ -180,7 +181,14 @@ func (s *C8Stage) Expr() string {
 	panic("stage kind " + s.Kind)
 }
 
-func (p *C8Pipe) Expr() string {
+// constructs of the language a lazy list may pass through without being consumed
+var c8CtxNames = []string{"", "try", "let", "if", "switch", "closure", "func", "mapfield", "listelem", "hostarg", "closure-let"}
+
+func (p *C8Pipe) Expr() string { return p.expr(nil) }
+
+// expr renders the pipeline; let bindings and func declarations of pass-through constructs are hoisted to the
+// top level of the expression (h), where the grammar accepts them
+func (p *C8Pipe) expr(h *[]string) string {
 	switch p.Kind {
 	case "var":
 		return "l"
@@ -193,24 +201,60 @@ func (p *C8Pipe) Expr() string {
 		}
 		return "[" + strings.Join(xs, ",") + "]"
 	case "stage":
-		return p.P.Expr() + p.S.Expr()
+		return p.P.expr(h) + p.S.Expr()
 	case "app":
-		return "(" + p.P.Expr() + "+" + p.Q.Expr() + ")"
+		return "(" + p.P.expr(h) + "+" + p.Q.expr(h) + ")"
 	case "cross":
-		return p.P.Expr() + ".cross(" + p.Q.Expr() + "," + p.F2.Expr(p.ID) + ")"
+		return p.P.expr(h) + ".cross(" + p.Q.expr(h) + "," + p.F2.Expr(p.ID) + ")"
 	case "merge":
-		return p.P.Expr() + ".merge(" + p.Q.Expr() + "," + p.P2.Expr(p.ID) + ")"
+		return p.P.expr(h) + ".merge(" + p.Q.expr(h) + "," + p.P2.Expr(p.ID) + ")"
+	case "through":
+		inner := p.P.expr(h)
+		ctx := p.Ctx
+		if h == nil && (ctx == 2 || ctx == 6) {
+			ctx = 10
+		}
+		switch ctx {
+		case 1:
+			return "(try " + inner + " catch [])"
+		case 2:
+			name := fmt.Sprintf("v%d", len(*h)+1)
+			*h = append(*h, "let "+name+"="+inner+";")
+			return name
+		case 3:
+			return "(if 1<2 then " + inner + " else [])"
+		case 4:
+			return "(switch 1 case 1:" + inner + " default [])"
+		case 5:
+			return "(x->x)(" + inner + ")"
+		case 6:
+			name := fmt.Sprintf("f%d", len(*h)+1)
+			*h = append(*h, "func "+name+"(x) x;")
+			return name + "(" + inner + ")"
+		case 7:
+			return "{l:" + inner + "}.l"
+		case 8:
+			return "[" + inner + "][0]"
+		case 9:
+			return "pass(" + inner + ")"
+		case 10:
+			return "(y->let v=y; v)(" + inner + ")"
+		}
 	}
 	panic("pipe kind " + p.Kind)
 }
-
 func (c *C8Case) Expr() string {
+	var h []string
+	pe := c.Pipe.expr(&h)
+	return strings.Join(h, " ") + c.exprWith(pe)
+}
+
+func (c *C8Case) exprWith(pe string) string {
 	if c.Multi != nil {
-		a := (&C8Case{Pipe: &C8Pipe{Kind: "var"}, Term: c.Term}).Expr()
-		b := (&C8Case{Pipe: &C8Pipe{Kind: "var"}, Term: c.Multi}).Expr()
-		return fmt.Sprintf("%s.multiUse({a:l->%s, b:l->%s}).a", c.Pipe.Expr(), a, b)
+		a := (&C8Case{Term: c.Term}).exprWith("l")
+		b := (&C8Case{Term: c.Multi}).exprWith("l")
+		return fmt.Sprintf("%s.multiUse({a:l->%s, b:l->%s}).a", pe, a, b)
 	}
-	pe := c.Pipe.Expr()
 	switch c.Term.Kind {
 	case "none":
 		return pe
@@ -299,6 +343,8 @@ func (p *C8Pipe) Coq() string {
 		return fmt.Sprintf("(DCross %d%%N %s %s %s)", p.ID, p.F2.Coq(), p.P.Coq(), p.Q.Coq())
 	case "merge":
 		return fmt.Sprintf("(DMerge %d%%N %s %s %s)", p.ID, p.P2.Coq(), p.P.Coq(), p.Q.Coq())
+	case "through":
+		return fmt.Sprintf("(DThrough %d%%N %s)", p.Ctx, p.P.Coq())
 	}
 	return "(DApp " + p.P.Coq() + " " + p.Q.Coq() + ")"
 }
@@ -392,6 +438,12 @@ func c8FG() *value.FunctionGenerator {
 		c8fg.AddStaticFunction("tick", c8Tick(1, 1))
 		c8fg.AddStaticFunction("tick2", c8Tick(2, 1))
 		c8fg.AddStaticFunction("tick2b", c8Tick(2, 2))
+		// a host function that hands its argument on (a list passes through it unconsumed)
+		c8fg.AddStaticFunction("pass", funcGen.Function[value.Value]{
+			Func:   func(st funcGen.Stack[value.Value], cs []value.Value) (value.Value, error) { return st.Get(0), nil },
+			Args:   1,
+			IsPure: false,
+		})
 	}
 	return c8fg
 }
@@ -679,6 +731,8 @@ func (p *C8Pipe) eager(n int, calls c8Calls) c8Partial {
 		return c8Partial{items: p.L, status: 1}
 	case "stage":
 		return p.S.eager(p.P.eager(n, calls), calls)
+	case "through":
+		return p.P.eager(n, calls) // the construct hands the list on: nothing may be evaluated
 	case "cross":
 		// row by row; the second list is iterated anew for every row; while it may go on only the first row is known
 		a := p.P.eager(n, calls)
@@ -847,6 +901,8 @@ func (p *C8Pipe) ids(out *[]int) {
 		*out = append(*out, p.ID)
 		p.P.ids(out)
 		p.Q.ids(out)
+	case "through":
+		p.P.ids(out)
 	}
 }
 
@@ -873,6 +929,8 @@ func (p *C8Pipe) shape() string {
 		return p.P.shape() + "." + p.S.Kind
 	case "cross", "merge":
 		return p.P.shape() + "." + p.Kind + "(" + p.Q.shape() + ")"
+	case "through":
+		return "<" + c8CtxNames[p.Ctx] + " " + p.P.shape() + ">"
 	}
 	return "(" + p.P.shape() + "+" + p.Q.shape() + ")"
 }
@@ -883,6 +941,8 @@ func (p *C8Pipe) stages() int {
 		return 1 + p.P.stages()
 	case "app", "cross", "merge":
 		return 1 + p.P.stages() + p.Q.stages()
+	case "through":
+		return p.P.stages()
 	}
 	return 0
 }
@@ -1243,6 +1303,11 @@ func (r *c8Run) judge(j *c8Job) {
 		r.sum.Count("consumer", c.Term.Kind)
 	}
 	r.sum.Count("source", strings.SplitN(c.Pipe.shape(), ".", 2)[0])
+	c.Pipe.walk(func(p *C8Pipe) {
+		if p.Kind == "through" {
+			r.sum.Count("pass_through_construct", c8CtxNames[p.Ctx])
+		}
+	})
 	r.sum.Count("stages", fmt.Sprint(c.Pipe.stages()))
 	c.Pipe.walk(func(p *C8Pipe) {
 		if p.Kind == "stage" {
@@ -1633,6 +1698,21 @@ func (c *C8Case) allIds() []int {
 	return ids
 }
 
+// c8Wrap puts the pass-through construct ctx around the k-th sub-pipeline (counted over all prefixes and operands)
+func c8Wrap(p *C8Pipe, k int, ctx int) *C8Pipe {
+	q := clonePipe(p)
+	var nodes []*C8Pipe
+	q.walk(func(x *C8Pipe) {
+		if x.Kind != "var" {
+			nodes = append(nodes, x)
+		}
+	})
+	n := nodes[k%len(nodes)]
+	inner := *n
+	*n = C8Pipe{Kind: "through", Ctx: ctx, P: &inner}
+	return q
+}
+
 // random pipelines
 func (r *Rng) c8Random() *C8Case {
 	var p *C8Pipe
@@ -1727,6 +1807,9 @@ func (r *Rng) c8Random() *C8Case {
 	default:
 		t = &C8Term{Kind: "none"}
 	}
+	for r.Chance(0.3) {
+		p = c8Wrap(p, r.Pick(12), 1+r.Pick(10))
+	}
 	c := &C8Case{Pipe: p, Term: t}
 	if r.Chance(0.5) {
 		ids := c.allIds()
@@ -1791,6 +1874,13 @@ func c8Corpus() []*C8Case {
 		{Pipe: c8Cross(c8St(c8Src("numbers", 3), stMap(5, 1, 0)), c8St(c8Src("numbers", 2), stMap(6, 1, 0))), Term: &C8Term{Kind: "size"}},
 		{Pipe: c8Cross(c8St(c8Src("numbers", 3), stMap(5, 1, 0)), c8St(c8Src("numbers", 0), stMap(6, 1, 0))), Term: &C8Term{Kind: "first"}},
 		{Pipe: c8Cross(c8St(c8Src("numbers", 0), stMap(5, 1, 0)), long(6)), Term: &C8Term{Kind: "size"}},
+		// a try expression whose value is a lazy list must not evaluate it (and a failing element behind the
+		// decisive one must not switch to the catch value)
+		{Pipe: c8Wrap(big(), 0, 1), Term: &C8Term{Kind: "first"}},
+		{Pipe: c8Wrap(big(), 0, 1), Term: &C8Term{Kind: "none"}},
+		{Pipe: c8Wrap(c8St(c8Src("numbers", 1000), stMap(1, 1, 0)), 0, 1), Term: &C8Term{Kind: "present", ID: 20, P1: &C8Pr1{Kind: "eq", T: 5}}},
+		{Pipe: c8Wrap(failAt(c8St(c8Src("numbers", 1000), stMap(1, 1, 0)), 999), 0, 1), Term: &C8Term{Kind: "first"}, Note: "try: failure far behind the decisive element"},
+		{Pipe: c8St(c8Wrap(failAt(big(), 7), 0, 1), stTop(3)), Term: &C8Term{Kind: "size"}, Note: "try: failure behind the decisive element"},
 		// merge: both operands lazy, stopped early
 		{Pipe: c8Merge(c8St(c8Src("big", 0), stMap(1, 2, 0)), c8St(c8Src("big", 0), stMap(6, 3, 1))), Term: &C8Term{Kind: "first"}},
 		{Pipe: c8St(c8Merge(c8St(c8Src("big", 0), stMap(1, 2, 0)), long(6)), stTop(5)), Term: &C8Term{Kind: "size"}},
@@ -1881,6 +1971,41 @@ func cmdC08(seed int64, tier, outDir string) {
 				for _, id := range pick {
 					for _, v := range c8FailVariants(b, id, (j+bi)%2 == 1) {
 						run.run(v)
+					}
+				}
+			}
+		}
+	}
+	// pass-through constructs: every construct around a prefix (or an operand) of every shape
+	for ti, tp := range c8Templates() {
+		for ctx := 1; ctx <= 10; ctx++ {
+			if tier != "thorough" && tp.build(0).has("merge") && ctx%3 != ti%3 {
+				continue
+			}
+			j := (ti*7 + ctx*3) % 41
+			lazy := tp.build(j)
+			var t *C8Term
+			pipe := lazy
+			if ts := c8Consumers(lazy, j); len(ts) > 0 && (ti+ctx)%3 != 0 {
+				t = ts[(ti+ctx)%len(ts)]
+			} else {
+				closed, cts := c8Closed(lazy, j)
+				pipe, t = closed, cts[(ti+ctx)%len(cts)]
+			}
+			poss := []int{(ti + ctx) % 6}
+			if tier == "thorough" || ctx <= 2 {
+				poss = []int{0, 1 + (ti+ctx)%5}
+			}
+			for _, pos := range poss {
+				b := &C8Case{Pipe: c8Wrap(pipe, pos, ctx), Term: cloneTerm(t)}
+				run.run(b)
+				if (pos == 0 && ctx <= 2) || tier == "thorough" {
+					// failing element around the decisive call of the closure next to the source
+					ids := b.allIds()
+					for _, v := range c8FailVariants(b, ids[len(ids)-1-(ti+ctx)%len(ids)], ctx%2 == 1) {
+						if strings.HasSuffix(v.Note, "+1") || strings.HasSuffix(v.Note, "+3") || strings.HasSuffix(v.Note, "-1") || tier == "thorough" {
+							run.run(v)
+						}
 					}
 				}
 			}
